@@ -125,10 +125,22 @@ func expandPredicateHelpers(c *chk.Ctx, conds []ir.Cond, depth int) [][]ir.Cond 
 			if h := call.Call.StaticCallee(); h != nil && c.P.InRepo[h] && !ir.Exported(h) && h.Signature.Results().Len() == 1 && h.Signature.Results().At(0).Type().String() == "bool" {
 				constRet := true
 				for _, r := range ir.Returns(h) {
-					k, isK := ir.ReturnResult(r, 0).(*ssa.Const)
+					v := ir.ReturnResult(r, 0)
+					k, isK := v.(*ssa.Const)
 					if !isK || k.Value == nil {
-						constRet = false
-						break
+						// a computed result: the outcome is that of the returned expression, on
+						// top of the outcomes known at the return
+						if _, isParam := v.(*ssa.Parameter); isParam {
+							constRet = false
+							break
+						}
+						for _, alt := range ir.CondAlternatives(ir.Cond{V: v, Truth: cd.Truth}, 0) {
+							base := ir.CondsAt(r.Block())
+							for _, e := range expandPredicateHelpers(c, append(append([]ir.Cond{}, base...), alt...), depth+1) {
+								repl = append(repl, dedupConds(e))
+							}
+						}
+						continue
 					}
 					if (k.Value.String() == "true") == cd.Truth {
 						if len(r.Block().Preds) > 1 {
@@ -145,6 +157,48 @@ func expandPredicateHelpers(c *chk.Ctx, conds []ir.Cond, depth int) [][]ir.Cond 
 				}
 			}
 		}
+		// h(...) == nil / != nil for a private helper with a pointer (or interface) result: the
+		// paths of h that return the nil constant, resp. a freshly allocated value
+		if x, eq, ok := ir.NilCompare(cd.V); ok && repl == nil && depth < 3 {
+			if call, isCall := x.(*ssa.Call); isCall {
+				if h := call.Call.StaticCallee(); h != nil && c.P.InRepo[h] && !ir.Exported(h) && h.Signature.Results().Len() == 1 {
+					wantNil := eq == cd.Truth
+					known := true
+					for _, r := range ir.Returns(h) {
+						v := ir.ReturnResult(r, 0)
+						var vals []ssa.Value
+						var conds [][]ir.Cond
+						if phi, isPhi := v.(*ssa.Phi); isPhi && phi.Block() == r.Block() {
+							for i, e := range phi.Edges {
+								vals = append(vals, e)
+								conds = append(conds, ir.EdgeConds(phi.Block().Preds[i], phi.Block()))
+							}
+						} else {
+							vals = append(vals, v)
+							conds = append(conds, ir.CondsAt(r.Block()))
+						}
+						for i, e := range vals {
+							_, isAlloc := e.(*ssa.Alloc)
+							switch {
+							case ir.IsNilConst(e):
+								if wantNil {
+									repl = append(repl, expandPredicateHelpers(c, conds[i], depth+1)...)
+								}
+							case isAlloc:
+								if !wantNil {
+									repl = append(repl, expandPredicateHelpers(c, conds[i], depth+1)...)
+								}
+							default:
+								known = false
+							}
+						}
+					}
+					if !known {
+						repl = nil
+					}
+				}
+			}
+		}
 		if repl == nil {
 			repl = [][]ir.Cond{{cd}}
 		}
@@ -157,6 +211,22 @@ func expandPredicateHelpers(c *chk.Ctx, conds []ir.Cond, depth int) [][]ir.Cond 
 		alts = next
 	}
 	return alts
+}
+
+func dedupConds(cs []ir.Cond) []ir.Cond {
+	var out []ir.Cond
+	for _, c := range cs {
+		dup := false
+		for _, o := range out {
+			if o.V == c.V && o.Truth == c.Truth {
+				dup = true
+			}
+		}
+		if !dup {
+			out = append(out, c)
+		}
+	}
+	return out
 }
 
 // ruleBridgeGate: C18-D1.
